@@ -2,6 +2,7 @@
   Model driver for C07. Case lines (see go/harness/cmd/c07/main.go):
 
     cfg <name> <height>                                  \t <sets> <homestead> <eip150> <eip158> <byzantium> <gas table>
+    pre <cfg> <addr> <gas> <input hex|->                 \t pre-<class> <leftover> <output length|->   (direct call of a precompile address)
     run <cfg> <kind> <gas> <valueNZ> <t|n> <step>*       \t <class> <leftover> <ticks> <maxDepth> <maxMem> <checksum>
 
   A step is `op:args:flags` (hex opcode, `.`-separated hex operands or `-`, oracle flags); step 0 describes the top-level
@@ -9,6 +10,7 @@
 -/
 import Aqv.Base.Proto
 import Aqv.Model.Vm
+import Aqv.Model.VmPrecompile
 open Aqv Aqv.Proto Aqv.Vm Aqv.Gen.VmFlags
 
 def hexDig7 (c : Char) : Option Nat :=
@@ -108,6 +110,26 @@ def handle (l : String) : String :=
       -- Spec judgement of what Go reported when it differs from Impl: the only clause visible in the summary is leftover ≤ given
       let goLeft := match fields go with | _ :: lo :: _ => lo.toNat! | _ => 0
       verdict m go (goLeft ≤ g) "leftover-gas-exceeds-given"
+  | ["pre", name, addr, gas, inputHex] =>
+    match findCfg name, (if inputHex == "-" then some [] else bytesOfHex inputHex) with
+    | some c, some input =>
+      let a := addr.toNat!
+      let g := gas.toNat!
+      let isPre := (if c.byzantium then precompilesByzantium else precompilesHomestead).contains a
+      -- not a precompile: the address has no code, the call succeeds and returns all gas
+      let (ok, left) := if isPre then Pre.runPrecompile a input g else (true, g)
+      let ol := if !isPre || !ok then "0" else match Pre.outLen a input with | some n => toString n | none => "-"
+      -- 4th field of the Go output: bytes allocated during the call (measured, so echoed into the model output); judged against
+      -- the buffers the MODEL says Run materialises: 1 MiB + 16·buffers (modexp, when Run is reached), 1 MiB otherwise
+      let goF := fields go
+      let goAlloc := match goF with | [_, _, _, al] => al.toNat! | _ => 0
+      let buffers := if isPre && ok && a == 5 then Pre.modexpRunBuffers (Pre.hdrWord input 0) (Pre.hdrWord input 32) (Pre.hdrWord input 64) else 0
+      let m := (if ok then "pre-ok" else "pre-fail-outOfGas") ++ s!" {if ok then left else 0} {ol} {goAlloc}"
+      let goLeft := match goF with | _ :: lo :: _ => lo.toNat! | _ => 0
+      if goAlloc > 1048576 + 16 * buffers then
+        m ++ s!"\tspec-reject:precompile-allocation-{goAlloc}-exceeds-modelled-buffers-{buffers}"
+      else verdict m go (goLeft ≤ g) "leftover-gas-exceeds-given"
+    | _, _ => "unknown-config-or-bad-hex\tspec-ok"
   | _ => "bad-op\tagree"
 
 def main : IO Unit := runLines handle
